@@ -1123,6 +1123,10 @@ def run(ctx):
                 ctx.stat('scene-sources', kind)
             for _ in range(per_cfg if cls == 'sc' else per_cfg // 2 + 1):
                 descs.append(gen_case(ctx.rng, cls, scene_seed, cfg, S))
+    # empty selections on an ApertureStats built on sky apertures (always exercised)
+    empty_selection_check(ctx, get_setup('as', 593566, {
+        'error': False, 'mask': False, 'wcs': True, 'sky': True, 'sigma_clip': False, 'sum_method': 'exact',
+        'local_bkg': None, 'unit': True, 'shape': 'annulus', 'naper': 4, 'seed': 866782}))
     terms, results, seen_sigs = [], [], {}
     for d in descs:
         r = execute(d)
